@@ -220,7 +220,7 @@ def discriminators(ctx, rule):
     kinds = sorted(used)
     if sum(len(v) for v in used.values()) < 4:
         # the decisions were factored into helpers: the round trip they protect is decided by the model table (R7)
-        ctx.undecided(rule, "id-versus-handle decisions of parse_facebook_url are not spelled in the function itself (see R7)")
+        ctx.defer(rule, "id-versus-handle decisions of parse_facebook_url are not spelled in the function itself (see R7)")
         return
     ctx.ob(rule, "facebook/one-id-predicate", len(kinds) == 1,
            "parse_facebook_url decides id-vs-handle with different predicates (%s): '/groups/1234567/posts/9' gives a group handle but '/groups/1234567/permalink/9' a group id, so record.url does not re-parse to the same record" % ", ".join(kinds),
